@@ -36,4 +36,9 @@ CHECKS = {
   technique='property-based testing: Hypothesis-generated (t0, dt, Tend, block size, levels, restart/step-size scripts) runs of the real controller; invariants over observer snapshots; exact-rational step counting',
   text='Each generated run of controller_nonMPI is observed block by block through a harness convergence controller; accepted steps are reconstructed and judged for contiguous tiling from t0, bit-exact value chaining, restart continuation at the restarted step, no start at/after Tend, no early stop, returned value == last accepted end value, caller u0 untouched/copied, and (fixed dt) the exact number of steps computed in rational arithmetic.',
   note='Times are compared up to 4 ulp of the largest operand. The step-count clause leaves a thin band (1e-9..1e-6 from an integer ratio) unjudged. Known finding F4 (k+1 steps from the absolute 10*eps activity threshold) is matched narrowly. controller_MPI is covered by C08 only; ParaDiag controller tiling is not yet covered.'),
+ 'C09': dict(
+  technique='property-based testing: generated restart/step-size scripts injected into the real restarting/limiter/spreading controllers, invariants with an independent retry counter; recomputation of the step-size formula on generated adaptive runs',
+  text='Scripted histories (num_procs 1-4, max_restarts 0-5, crash/move-on, both restart modes, limiter settings, requests and raw proposals at arbitrary (attempt, slot)) are judged for kept steps, continuation at the restarted step, one dt per block, retry budget, ConvergenceError exactly when due, progress, and next dt = slope-then-absolute-limited proposal. '
+       'Real adaptive runs (Adaptivity, AdaptivityRK on every embedded RK class, polynomial, extrapolation estimators; van der Pol, Lorenz, logistic, Dahlquist) are judged for the step-size formula, accepted-below-tolerance and smaller-retry clauses.',
+  note='Tend clipping by the spreader is outside the statement: a smaller-than-predicted step is accepted only within one block of Tend. Polynomial-estimator order is a status variable, so only its acceptance/retry clauses are asserted. Runs are cost-bounded to 120 blocks. One defect (F15) found and fixed.'),
 }
